@@ -43,6 +43,8 @@ ChildShapes ==
         <<ChExpr(Call("g1", PVNode("pv1"))), ChExpr(Ident("cb", TRUE, PVNode("pv4")))>>,
         <<ChSpread(Ident("xs", FALSE, Arr(<<PVNode("e1"), PVNode("e2")>>)))>>,
         <<ChSpread(Call("gxs", Arr(<<PVNode("e3"), PVNode("e4")>>)))>>,
+        <<ChSpread(ArrLit(<<Ident("cb", TRUE, PVNode("pv4")), Call("g1", PVNode("pv1"))>>))>>,    \* {...[cb, g1()]}
+        <<ChText(<<"a">>), ChSpread(ArrLit(<<Ident("cu", FALSE, S(<<115>>))>>))>>,
         <<ChComment, ChSpread(Member("o1", "list", Arr(<<PVNode("e5")>>)))>>,
         <<ChSpread(Call("gxs", Arr(<<PVNode("e3")>>))), ChText(<<"a">>)>>,
         <<ChElem(B), ChText(<<"lf", "sp">>), ChElem(B)>>,
